@@ -59,6 +59,12 @@ ASSUMPTIONS = [
     'is not part of the check; the cursors of find_rewind are kept and read again (the value of a '
     're-read is compared with the first read only while no write happened in between: a cursor is '
     'not required to be a snapshot)',
+    'a Cursor keeps the projection dict it was given BY REFERENCE and reads it when it computes '
+    'its results (first iteration, clone(), sort()), as pymongo does: editing the dict after '
+    'find() returned changes what the cursor gives (evidence: cursor_reads_projection_lazily). '
+    'The filter is copied when find() is called.  The model takes the projection as it is when '
+    'the results are computed; the harness does not scribble on the projection of a cursor it '
+    'keeps',
     'the cache of a cursor is observed through the private attribute Cursor._results',
     'aggregate stages $sample, $out, $lookup, $graphLookup, $facet, $bucket are not generated '
     '(C16 covers the pipeline argument); bulk_write and the deprecated entry points are not '
@@ -893,6 +899,9 @@ class HistoryRun(object):
         before_find = self.read_all()
         n = 0
         for role, obj in handed:
+            if c.k == 'find_rewind' and role == 'projection':
+                # the cursor that is kept reads this dict again (clone): see ASSUMPTIONS
+                continue
             n += scribble(obj, sidset)
         self.stats['containers scribbled'] += n
         post2 = self.snapshot()
@@ -1138,6 +1147,7 @@ def run(ctx, proof, driver_ok):
         'model_operations': judge.op_rows,
         'events_on_the_real_heap': dict(judge.events),
         'witnesses_of_repaired_findings': regress,
+        'cursor_reads_projection_lazily': lazy_projection_probe(),
         'projection_flows_model_raises_python_returns': dict(judge.proj_model_errors),
         'checks': {k: v for k, v in stats.items() if not k.startswith(('op:', 'inst:'))},
         'operation_histogram': {k[3:]: v for k, v in stats.items() if k.startswith('op:')},
@@ -1154,6 +1164,16 @@ def run_one(ctx, history, oids, known=None):
     r = HistoryRun(history, oids, judge.known).run()
     judge.batch([r])
     return r, judge
+
+
+def lazy_projection_probe():
+    """not judged, recorded: does a cursor read its projection argument after find() returned?"""
+    c = mongomock.MongoClient().db.c
+    c.insert_one({'_id': 1, 'a': 1, 'b': 2})
+    p = {'a': 1}
+    cur = c.find({}, p)
+    p['a'] = 0
+    return list(cur) != [{'_id': 1, 'a': 1}]
 
 
 def regression(ctx):
